@@ -326,6 +326,11 @@ type ReuseCase struct {
 	A, B Case `json:"-"`
 	SA   sxgkit.Spec `json:"a"`
 	SB   sxgkit.Spec `json:"b"`
+	// Refused: a signing attempt that the library refuses, made with the same Signer between the
+	// two signings ("" none; validity-nonascii / certurl-nonascii: a URL whose raw query holds a
+	// non-ASCII character cannot be written as a structured-header string, so the Signature header
+	// serialisation stops half-way; certurl-scheme: refused before anything is serialised).
+	Refused string `json:"refused,omitempty"`
 }
 
 var reuse = vh.Define("C08", "signer-reuse", func(c ReuseCase, r *vh.R) {
@@ -353,6 +358,24 @@ var reuse = vh.Define("C08", "signer-reuse", func(c ReuseCase, r *vh.R) {
 	if err := ea.AddSignatureHeader(sg); err != nil {
 		r.Failf("sign-error", "first signing: %v", err)
 		return
+	}
+	if c.Refused != "" {
+		ex := sxgkit.New(&sa)
+		if err := ex.MiEncodePayload(sa.RecordSize); err == nil {
+			keepV, keepC := sg.ValidityUrl, sg.CertUrl
+			switch c.Refused {
+			case "validity-nonascii":
+				sg.ValidityUrl = mustURL("https://a.example/validity?v=\u00e9")
+			case "certurl-nonascii":
+				sg.CertUrl = mustURL("https://a.example/cert?c=\u00e9")
+			case "certurl-scheme":
+				sg.CertUrl = mustURL("http://a.example/cert")
+			}
+			if err := ex.AddSignatureHeader(sg); err != nil {
+				r.Class("refused-signing-between")
+			}
+			sg.ValidityUrl, sg.CertUrl = keepV, keepC
+		}
 	}
 	// re-point the same Signer object
 	fb := gen.Fixtures()[sb.Fixture]
@@ -409,6 +432,6 @@ func TestPropSignerReuse(t *testing.T) {
 		a := genCase(t, true)
 		b := genCase(t, true)
 		a.Spec.Fixture = rapid.SampledFrom([]int{0, 3}).Draw(t, "firstfixture")
-		return ReuseCase{SA: a.Spec, SB: b.Spec}
+		return ReuseCase{SA: a.Spec, SB: b.Spec, Refused: rapid.SampledFrom([]string{"", "validity-nonascii", "validity-nonascii", "certurl-nonascii", "certurl-scheme"}).Draw(t, "refused")}
 	})
 }
